@@ -239,7 +239,12 @@ func (e *env) hookCheck(what string, xv []float64, y float64, haveY bool, g []fl
 	// a diverged run (overflowing iterates) is not a hook matter
 	for _, v := range append(append([]float64{f0}, g0...), xv...) {
 		if math.IsInf(v, 0) || math.Abs(v) > 1e150 {
-			return e.hookStopAt > 0 && e.hookCalls >= e.hookStopAt
+			if e.hookStopAt > 0 && e.hookCalls >= e.hookStopAt {
+				e.hookStopped = true
+				e.c.Count("fault:hook-cancellation")
+				return true
+			}
+			return false
 		}
 	}
 	if e.c.Keep && e.hookCalls < 40 {
@@ -412,8 +417,10 @@ func Run(c *core.Ctx) {
 					return e.hookCheck("newton.RunMin", floats(x), y.GetFloat64(), y != nil, floats(g))
 				}},
 				newton.HessianModification{Value: []string{"None", "LDL", "Eigenvalue"}[t.Choose(3)]}}
-			if e.cons != 0 {
+			if e.cons != 0 && !c.Avoid["C07-F1"] {
 				args = append(args, newton.Constraints{Value: e.predicate})
+			} else {
+				e.cons = 0
 			}
 			xr, err = newton.RunMin(e.objective, x0, args...)
 		case "newton.RunRoot":
@@ -662,6 +669,14 @@ func init() {
 			{Name: "faults", Weight: 1, Faulty: true},
 		},
 		Run:      Run,
+		Probes: []core.FindingProbe{
+			// newton.RunMin with constraints: a recorded minimal run (choice list)
+			{ID: "C07-F1", Run: func(c *core.Ctx) {
+				c.Tape = core.NewReplayTape([]int{13, 12, 0, 0, 4, 9, 0, 0, 0, 1, 0, 0, 0, 0, 2, 1})
+				c.Scenario = "faults"
+				Run(c)
+			}},
+		},
 		StepUnit: "callbacks into the environment (objective evaluations, constraint evaluations, hook calls)",
 		Rule: "one run = one routine (BFGS, Rprop, gradient descent, Adam, Newton crit / min / root, line search) on one objective drawn from families with closed-form value, gradient, Hessian and optimum (SPD quadratics n=1..4 with condition number <= 100 built from drawn eigenvalues and rotations, Rosenbrock type, separable quartic, L2-regularised logistic loss, polynomial systems with planted roots), drawn start, epsilon, step sizes, eta, Hessian modification, optional constraint predicate (box / half space that holds at x0). The environment is the objective (derivatives handed back by the chain rule on the seeds stored in x), the constraint and the hook; in the fault scenario it injects up to two transient evaluation faults (error, NaN value, NaN gradient, biased to the first evaluations, i.e. inside the first line searches), a hook cancellation and small caps. Oracles over the recorded history: stopping condition re-evaluated in closed form at the returned point, distance to the minimiser on quadratics, constraint predicate at the returned point, hook arguments vs closed form at the hook's x, strong Wolfe conditions, x0 unchanged. Non-trivial = at least 3 evaluations. Distinct = (routine, exit reason, dimension, fault pattern, constraint kind, hook, family).",
 		Assumptions: []string{
